@@ -56,7 +56,9 @@ COQ_RESERVED = {'pat', 'thunk', 'conc', 'mp', 'fun', 'forall', 'exists', 'match'
 
 
 # (python name, parameter types, Gallina function, documented rule)
-PRIMITIVES = [('modus_ponens', ['thunk', 'thunk'], 'mp', 'p -> q    p\n----------\nq')]
+PRIMITIVES = [('modus_ponens', ['thunk', 'thunk'], 'mp', 'p -> q    p\n----------\nq'),
+              # dynamic_inst(pf, delta): conclusion = pf.conc instantiated by delta (oracle: sequential instantiation)
+              ('dynamic_inst', ['thunk', 'subst'], 'dynamic_inst', None)]
 
 
 class Unsupported(Exception):
@@ -624,7 +626,7 @@ def translate(repo_src, extra_path):
 
     # dispatcher for the extracted model (harness requests entry points by index)
     d.append('(** dispatcher for the extracted model: entry point by index *)')
-    d.append('Inductive arg := APat (p : pat) | AThunk (t : thunk).')
+    d.append('Inductive arg := APat (p : pat) | AThunk (t : thunk) | ASubst (d : list (N * pat)).')
     d.append('Definition dispatch (i : N) (args : list arg) : option thunk :=\n  match i, args with')
     index = []
     for k, n in enumerate(out_order):
@@ -643,14 +645,17 @@ def translate(repo_src, extra_path):
     for k2, (pn, ptypes, coqf, doc) in enumerate(PRIMITIVES):
         k = len(out_order) + k2
         names = [f'a{j}' for j in range(len(ptypes))]
-        pats = '; '.join((f'APat {v(a)}' if t == 'pat' else f'AThunk {v(a)}') for a, t in zip(names, ptypes))
+        ctor = {'pat': 'APat', 'thunk': 'AThunk', 'subst': 'ASubst'}
+        pats = '; '.join(f'{ctor[t]} {v(a)}' for a, t in zip(names, ptypes))
         d.append(f'  | {k}, [{pats}] => Some ({coqf} ' + ' '.join(v(a) for a in names) + ')')
-        sch = S.parse_docstring(doc)
-        binding, prem_vars = S.bind_schema(sch, [a for a, t in zip(names, ptypes) if t == 'pat'],
-                                           sum(1 for t in ptypes if t == 'thunk'), pn)
+        schd = None
+        if doc is not None:
+            sch = S.parse_docstring(doc)
+            binding, prem_vars = S.bind_schema(sch, [a for a, t in zip(names, ptypes) if t == 'pat'],
+                                               sum(1 for t in ptypes if t == 'thunk'), pn)
+            schd = dict(premises=sch['premises'], conclusions=sch['conclusions'], binding=binding, prem_vars=prem_vars)
         index.append(dict(name=pn, cls='ProofExp', idx=k, params=[dict(name=a, type=t, default=None) for a, t in zip(names, ptypes)],
-                          schema=dict(premises=sch['premises'], conclusions=sch['conclusions'], binding=binding, prem_vars=prem_vars),
-                          spec='primitive', sha=None, calls=[], doc=doc))
+                          schema=schd, spec='primitive', sha=None, calls=[], doc=doc))
     d.append('  | _, _ => None\n  end.')
     d.append(f'Definition n_entry_points : N := {len(out_order)}.')
     text = ('\n'.join(d) + '\n', '\n'.join(o) + '\n')
